@@ -18,6 +18,7 @@ def table_tree():
     A("(forall ((X Int) (a %s)) (! (=> %s (and (= (p_lo %s) (c_lo X %s)) (= (c_lo X (bvadd %s %s)) (p_hi %s)) (= (tree_of %s) (tree_of (pg X))))) :pattern (%s)))"%(W,inrange(TI,"a"),child,rel(TI,"a"),rel(TI,"a"),ONE,child,child,cell))
     A("(forall ((X Int)) (! (and (= (p_lo (%s X)) (c_lo X (s_len (%s X)))) (= (p_hi (%s X)) (p_hi (pg X))) (= (tree_of (%s X)) (tree_of (pg X)))) :pattern ((%s X))))"%(TIR,TI,TIR,TIR,TIR))
 def table_sorted():
+    A("(forall ((p %s)) (! (= (tree_of (tree_of p)) (tree_of p)) :pattern ((tree_of p))))"%W)
     A("(forall ((p %s)) (! (and (bvule (p_lo (tree_of p)) (p_lo p)) (bvule (p_lo p) (p_hi p)) (bvule (p_hi p) (p_hi (tree_of p))) (bvule (p_hi (tree_of p)) #x0000ffffffffffff)) :pattern ((p_lo p)) :pattern ((p_hi p))))"%W)
     A("(forall ((t %s) (k %s)) (! (and (bvule (p_lo t) (tfirst t k)) (bvule (tfirst t k) (p_hi t))) :pattern ((tfirst t k))))"%(W,W))
     A("(forall ((t %s) (k %s) (j %s)) (! (=> (and (bvule (p_lo t) j) (bvult j (p_hi t))) (= (bvult j (tfirst t k)) (bvslt (tb_rowid t j) k))) :pattern ((tfirst t k) (tb_rowid t j))))"%(W,W,W))
@@ -42,6 +43,7 @@ def index_tree():
     A("(forall ((X Int) (a %s)) (! (=> %s (and (= (p_lo %s) (c_lo X %s)) (= (ix_payload (tree_of (pg X)) (p_hi %s)) (S_db_indexInteriorCell_1_payload %s)) (= (c_lo X (bvadd %s %s)) (bvadd (p_hi %s) %s)) (= (tree_of %s) (tree_of (pg X))))) :pattern (%s)))"%(W,inrange(II,"a"),child,rel(II,"a"),child,cell,rel(II,"a"),ONE,child,ONE,child,cell))
     A("(forall ((X Int)) (! (and (= (p_lo (%s X)) (c_lo X (s_len (%s X)))) (= (p_hi (%s X)) (p_hi (pg X))) (= (tree_of (%s X)) (tree_of (pg X)))) :pattern ((%s X))))"%(IIR,II,IIR,IIR,IIR))
 def index_sorted():
+    A("(forall ((p %s)) (! (= (tree_of (tree_of p)) (tree_of p)) :pattern ((tree_of p))))"%W)
     A("(forall ((p %s)) (! (and (bvule (p_lo (tree_of p)) (p_lo p)) (bvule (p_lo p) (p_hi p)) (bvule (p_hi p) (p_hi (tree_of p))) (bvule (p_hi (tree_of p)) #x0000ffffffffffff)) :pattern ((p_lo p)) :pattern ((p_hi p))))"%W)
     A("(forall ((t %s) (k Slice)) (! (and (bvule (p_lo t) (ifirst t k)) (bvule (ifirst t k) (p_hi t))) :pattern ((ifirst t k))))"%W)
     A("(forall ((t %s) (k Slice) (j %s)) (! (=> (and (bvule (p_lo t) j) (bvult j (p_hi t))) (= (bvult j (ifirst t k)) (not (srch k (ix_payload t j))))) :pattern ((ifirst t k) (ix_payload t j))))"%(W,W))
